@@ -154,6 +154,7 @@ struct app {
     bool recv_loop = false; int next_auto_id = 1000;
     bool terminal_issued = false;   // the application ended the client: it does not re-arm async_receive
     long long handlers_run = 0;
+    long long burst_done = 0;
     long long settle_budget = 5000;   // cfg "budget": scenarios that deliver a 64 KiB packet in 7-byte reads need more
     bool aborted = false;
 
@@ -537,6 +538,19 @@ struct app {
         else if (op == "connack") { // configuration of the next CONNACK(s)
             sim::connack_cfg cfg; cfg.sp = (int) jint(s, "sp", -1); cfg.rc = (int) jint(s, "rc", 0); cfg.props = jprops(s);
             if (jint(s, "sticky", 0)) br.connack_default = cfg; else br.connack_queue.push_back(cfg);
+        }
+        else if (op == "burst") {
+            // n QoS 0 publishes that are not traced (they only age the client's internal counters, e.g. the serial numbers
+            // that order re-sent packets): the handlers are run every 64 calls
+            long long n = jint(s, "n", 1000); long long done_before = burst_done;
+            bool tr = w.tracing; w.tracing = false;
+            for (long long i = 0; i < n && !aborted; ++i) {
+                c->async_publish<mq::qos_e::at_most_once>("burst", "", mq::retain_e::no, mq::publish_props {}, [this](error_code) { ++burst_done; });
+                if ((i & 63) == 63) settle();
+            }
+            settle();
+            w.tracing = tr;
+            jev("burst").i("calls", n).i("completed", burst_done - done_before);
         }
         else if (op == "lose") { // a reply the broker owes is lost on the way (nothing is sent; the connection stays healthy)
             size_t i = (size_t) jint(s, "i", 0);
